@@ -36,7 +36,7 @@ from ..evidence import Run, canon_hash
 
 PID = "C10"
 SHARDS = {"quick": 6, "thorough": 16}
-SHARD_TIMEOUT = {"quick": 400, "thorough": 9000}  # TEMP-TRIAGE
+SHARD_TIMEOUT = {"quick": 400, "thorough": 1700}
 N_PER_TYPE = {"quick": 48, "thorough": 900}
 
 
@@ -95,6 +95,11 @@ def mech(kind, w):
     if kind in S2_KINDS and cls == "pandas_engine.DateTime" and empty and \
             cont.get("shape") == "frame":
         return "pandas-datetime-coerce-of-empty-frame-not-converted"
+    if kind in S2_KINDS and cls == "pandas_engine.Decimal" and (
+            in_dtype == "category" or "category" in str(
+                (w.get("output") or {}).get("dtype", ""))):
+        # Series.apply on a categorical answers with a categorical
+        return "pandas-decimal-coerce-of-categorical-keeps-category-dtype"
     if kind in S2_KINDS and cls == "pandas_engine.Decimal":
         return "pandas-decimal-check-counts-sign-and-leading-zero"
     if kind == "coerce_value-disagrees-with-coerce" and short == "Timedelta64" and \
@@ -117,10 +122,6 @@ def mech(kind, w):
     if kind in S2_KINDS + ("not-idempotent",) and cls == "numpy_engine.Bool" and \
             in_dtype == "category" and "<null>" in cont.get("values", []):
         return "numpy-bool-coerce-of-categorical-with-null-yields-object"
-    if short == "Category" and cls.startswith("pandas_engine.") and "has no len()" in (
-            exc + str(w.get("detail"))) and any(
-            v.startswith("tuple:") for v in cont.get("values", []) + cont.get("values2", [])):
-        return "pandas-category-with-tuple-categories-cannot-be-resolved"
     if cls.startswith("pandas_engine.Python"):
         allnull = all(v == "<null>" for v in cont.get("values", []) + cont.get("values2", []))
         if kind in S2_KINDS + ("not-idempotent",) and (empty or allnull):
@@ -386,7 +387,11 @@ def pandas_success(run, eng, t, kind, extra, c, out, base):
     # S2
     run.count(f"{eng}:S2_own_check")
     okc, r = safe(K.pandas_dtype_check, t, out)
-    if not okc:
+    if K.unhashable_dtype(out):
+        # pandas cannot hash a CategoricalDtype whose categories mix tuples
+        # with other values; no registry can look such a dtype object up
+        run.count("undecided:result-dtype-object-is-not-hashable(pandas)")
+    elif not okc:
         viol(run, "own-check-raises-on-coerced-result",
              dict(base, output=K._brief(out), exc=exc_s(r)))
     elif not r:
@@ -924,6 +929,8 @@ def run(run, ctx):
         run.count(f"contract_evals_total:{cond}", k)
     for (eng, cn, exn), k in rec.raised.items():
         run.count(f"contract_raised:{exn}", k)
+    for name, k in rec.undecided.items():
+        run.count(f"undecided:contract:{name}", k)
     for b in rec.broken:
         viol(run, f"contract:{b['condition']}", b)
     if ctx.nshards == 1:
